@@ -45,5 +45,8 @@ def paths_of(sc, els):
 
 
 def markup_of(sc):
-    s = str(sc.top)
+    try:
+        s = str(sc.top)
+    except Exception:
+        s = 'unserialisable tree; model view: ' + sc.sx
     return s if len(s) < 3000 else s[:3000] + '...'
